@@ -338,6 +338,13 @@ def accept_cases(draw):
                 break
             x += 1
         b = bytearray(bytes([2 + draw(st.integers(0, 1))]) + x.to_bytes(32, "big"))
+        if draw(st.booleans()):
+            # uncompressed, with the y a square-root routine without Euler's criterion returns for such an x: the root of
+            # -(x^3 + 7), a point of the twist
+            yt = pow((-(x * x * x + 7)) % P, (P + 1) // 4, P)
+            yt = draw(st.sampled_from([yt, P - yt]))
+            b = bytearray(b"\x04" + x.to_bytes(32, "big") + yt.to_bytes(32, "big"))
+            kind = "nonresidue-twist-point"
     elif kind == "y-perturbed":
         y2 = (pt[1] + draw(st.integers(1, 5))) % P
         b = bytearray(b"\x04" + pt[0].to_bytes(32, "big") + y2.to_bytes(32, "big"))
@@ -423,7 +430,7 @@ def _targets(tier):
     return [
         Target("sec1-roundtrip", check_roundtrip, strategy=lambda tier: st.fixed_dictionaries({"k": gen.scalars_valid()}), budget={"quick": 1200, "thorough": 25000}),
         Target("sec1-accept", check_accept, strategy=lambda tier: accept_cases(), budget={"quick": 4000, "thorough": 80000},
-               required=["nt:len65-prefix02", "nt:len33-prefix04", "nt:hybrid", "nt:x>=p", "nt:nonresidue", "nt:y-negated", "nt:coord-aliased", "nt:coord-in-n..p", "nt:len-no-prefix", "nt:key-as-text", "nt:zero-octets", "nt:after-decoding-valid-base", "expect-accept", "expect-reject"]),
+               required=["nt:len65-prefix02", "nt:len33-prefix04", "nt:hybrid", "nt:x>=p", "nt:nonresidue", "nt:y-negated", "nt:coord-aliased", "nt:coord-in-n..p", "nt:len-no-prefix", "nt:key-as-text", "nt:zero-octets", "nt:nonresidue-twist-point", "nt:after-decoding-valid-base", "expect-accept", "expect-reject"]),
         Target("wif", check_wif, strategy=lambda tier: wif_cases(), budget={"quick": 3000, "thorough": 60000},
                required=["nt:key-31-leading-zero-bytes", "nt:suffix", "nt:suffix>=57-bytes", "nt:after-same-key-other-type-network-suffix", "nt:wif-unknown-version", "nt:wif-mutated", "nt:bad-key-len", "nt:bad-key-range"]),
         Target("pem", check_pem, strategy=lambda tier: pem_cases(), budget={"quick": 320, "thorough": 6000},
